@@ -127,6 +127,71 @@ impl ChangeQueue {
         ensures r.wf(), r.changes.len() == 0,
 //@ end
 
+//@ fn rust/automerge/src/change_queue.rs | impl ChangeQueue | extend
+//@   spec
+        requires old(self).wf(), batch.wf(),
+            // what apply_changes_batch establishes before calling extend (has_hash / has_actor_seq filters):
+            forall|i: int| 0 <= i < batch.changes.len() ==> !old(self).hashes@.contains((#[trigger] batch.changes[i]).spec_hash())
+                && !old(self).incoming_actor_seqs@.contains((batch.changes[i].spec_actor(), batch.changes[i].spec_seq())),
+        ensures
+            // C38: the queue keeps its index invariant -- in particular no two queued changes share (actor, seq)
+            final(self).wf(),
+            final(self).changes@ == old(self).changes@ + batch.changes@,
+//@   loop 1 iter it
+            invariant
+                it.seq() == batch.changes@,
+                self.changes@ == old(self).changes@ + batch.changes@.subrange(0, it.index@),
+                idx_wf(self.changes@, self.hashes@, self.incoming_actor_seqs@),
+                batch.wf(),
+                forall|i: int| 0 <= i < batch.changes.len() ==> !old(self).hashes@.contains((#[trigger] batch.changes[i]).spec_hash())
+                    && !old(self).incoming_actor_seqs@.contains((batch.changes[i].spec_actor(), batch.changes[i].spec_seq())),
+                forall|a: ActorId, s: u64| #[trigger] self.incoming_actor_seqs@.contains((a, s)) ==> old(self).incoming_actor_seqs@.contains((a, s))
+                    || exists|j: int| 0 <= j < it.index@ && batch.changes[j].spec_actor() == a && batch.changes[j].spec_seq() == s,
+//@   before /let incoming_actor_seq = \(c\.actor_id\(\)\.clone\(\), c\.seq\(\)\);/
+            let ghost pre_changes = self.changes@;
+            let ghost pre_pairs = self.incoming_actor_seqs@;
+            let ghost k = it.index@;
+            proof { assert(c == batch.changes@[k]); }
+//@   after /self\.changes\.push\(c\);/
+            proof {
+                let cs = self.changes@;
+                let n = pre_changes.len() as int;
+                let pr = (c.spec_actor(), c.spec_seq());
+                assert(cs == pre_changes.push(c));
+                assert(cs =~= old(self).changes@ + batch.changes@.subrange(0, k + 1));
+                // the new pair is not among the pairs already indexed
+                assert(!pre_pairs.contains(pr)) by {
+                    if pre_pairs.contains(pr) {
+                        if !old(self).incoming_actor_seqs@.contains(pr) {
+                            let j = choose|j: int| 0 <= j < k && batch.changes[j].spec_actor() == pr.0 && batch.changes[j].spec_seq() == pr.1;
+                            assert((batch.changes@[j].spec_actor(), batch.changes@[j].spec_seq()) != (batch.changes@[k].spec_actor(), batch.changes@[k].spec_seq()));
+                        }
+                    }
+                }
+                assert forall|a: ActorId, s: u64| #[trigger] self.incoming_actor_seqs@.contains((a, s)) implies exists|i: int| at(cs, i, a, s) by {
+                    if (a, s) == pr { assert(at(cs, n, a, s)); } else {
+                        assert(pre_pairs.contains((a, s)));
+                        let i = choose|i: int| at(pre_changes, i, a, s);
+                        assert(at(cs, i, a, s));
+                    }
+                }
+                assert forall|i: int, j: int| 0 <= i < j < cs.len() implies (cs[i].spec_actor(), cs[i].spec_seq()) != (cs[j].spec_actor(), cs[j].spec_seq()) by {
+                    if j == n { assert(pre_pairs.contains((pre_changes[i].spec_actor(), pre_changes[i].spec_seq()))); }
+                }
+                assert forall|a: ActorId, s: u64| #[trigger] self.incoming_actor_seqs@.contains((a, s)) implies (old(self).incoming_actor_seqs@.contains((a, s))
+                    || exists|j: int| 0 <= j < k + 1 && batch.changes[j].spec_actor() == a && batch.changes[j].spec_seq() == s) by {
+                    if (a, s) == pr { assert(batch.changes[k].spec_actor() == a && batch.changes[k].spec_seq() == s); }
+                    else {
+                        assert(pre_pairs.contains((a, s)));
+                        if !old(self).incoming_actor_seqs@.contains((a, s)) {
+                            let j = choose|j: int| 0 <= j < k && batch.changes[j].spec_actor() == a && batch.changes[j].spec_seq() == s;
+                            assert(0 <= j < k + 1);
+                        }
+                    }
+                }
+            }
+//@ end
+
 //@ fn rust/automerge/src/change_queue.rs | impl ChangeQueue | is_empty
 //@   ret r
 //@   spec
